@@ -8,6 +8,7 @@ package main
 
 import (
 	"fmt"
+	"sort"
 	"go/token"
 	"go/types"
 	"strings"
@@ -18,7 +19,7 @@ import (
 func init() {
 	register(&propDef{
 		id:      "C28",
-		explain: "Structural necessary condition of 'Args behaves as an insertion-ordered multimap': every function that moves elements inside a []argsKV (element stores fed by element loads, or copy() within one slice) is order-preserving by construction - copy shifts left by a constant, and no element is loaded from an index derived from the slice length (the tail) and stored at an index that is not; an entry moved to another slot has its old slot rewritten as well (swap, park or shift), so no two slots share key/value buffers - and every shortening of Args.args is [:0], the result of such a routine, or happens inside one; (coupling) every function of the Args machinery that assigns an entry's value also assigns its no-value flag on every path. Not decided: agreement of Peek/Set/Add with a reference model over operation sequences, parsing and encoding.",
+		explain: "Structural necessary condition of 'Args behaves as an insertion-ordered multimap': every function that moves elements inside a []argsKV (element stores fed by element loads, or copy() within one slice) is order-preserving by construction - copy shifts left by a constant, and no element is loaded from an index derived from the slice length (the tail) and stored at an index that is not; an entry moved to another slot has its old slot rewritten as well (swap, park or shift), so no two slots share key/value buffers - and every shortening of Args.args is [:0], the result of such a routine, or happens inside one; (coupling) every function of the Args machinery that assigns an entry's value also assigns its no-value flag on every path. (R-slot) a recycled entry handed out by allocArg (reslicing into spare capacity, so it still holds the previous occupant's key, value and flag) has key, value and no-value flag stored before it is kept - directly, or by argsScanner.next, whose every producing return stores all three (decided path-sensitively); Not decided: agreement of Peek/Set/Add with a reference model over operation sequences, parsing and encoding.",
 		run: func(p *Prog, r *Report) {
 			runKVOrder(p, r, "C28")
 			runKVCoupling(p, r)
@@ -27,13 +28,14 @@ func init() {
 	})
 	register(&propDef{
 		id:      "C29",
-		explain: "Structural necessary conditions of 'headers behave as an ordered case-insensitive multimap': (E11) as for C28, for header.h / cookies storage of both header types; (sibling) the special header names handled by the set / peek / peekAll / del / serialise paths of each header type are the same set, so a name stored in a dedicated field by one operation is found by the others; (E7) CopyTo writes every field of the destination header from the same field of the source; (accumulate) the generic Set-Cookie paths of the response header (setter switch and parser) append to the cookie list and never replace by key. Not decided: model agreement over operation sequences, parse/serialise round trip.",
+		explain: "Structural necessary conditions of 'headers behave as an ordered case-insensitive multimap': (E11) as for C28, for header.h / cookies storage of both header types; (sibling) the special header names handled by the set / peek / peekAll / del / serialise paths of each header type are the same set, so a name stored in a dedicated field by one operation is found by the others; (E7) CopyTo writes every field of the destination header from the same field of the source; (accumulate) the generic Set-Cookie paths of the response header (setter switch and parser) append to the cookie list and never replace by key. (R-slot) a recycled entry handed out by allocArg has its key and value stored before it is kept, directly or by a scanner whose producing returns store them on every path; (R-iter) in the serialisers, the branch guarding the write of a stored field does not flow from a boolean merged at the head of the loop over the fields - the fate of a field depends on that field alone; Not decided: model agreement over operation sequences, parse/serialise round trip.",
 		run: func(p *Prog, r *Report) {
 			runKVOrder(p, r, "C29")
 			runHeaderSiblings(p, r)
 			runCopyToCoverage(p, r)
 			runSetCookieAccumulates(p, r)
 			runSlotFill(p, r, "C29")
+			runPerFieldDecision(p, r)
 		},
 	})
 }
@@ -799,4 +801,111 @@ func runSetCookieAccumulates(p *Prog, r *Report) {
 		}
 	}
 	r.Floor("accumulate", "Set-Cookie storage sites under a Set-Cookie name test", n, 2)
+}
+
+// runPerFieldDecision (C29.R-iter): in the header serialisers, whether a
+// stored field is written depends on that field alone. The decision of the
+// branch that guards appendHeaderLine for an element of the field list must
+// not flow from a boolean carried round the loop over the fields (a loop-header
+// merge fed from inside the loop): such a flag makes the fate of field i
+// depend on the fields before it - one trailer-listed name and every later
+// field disappears from the wire while Peek still sees it.
+func runPerFieldDecision(p *Prog, r *Report) {
+	appendLine := p.Func("appendHeaderLine")
+	if appendLine == nil {
+		r.Undecided("R-iter", "appendHeaderLine", "anchor not found")
+		return
+	}
+	n := 0
+	ord := map[*ssa.Function]int{}
+	for _, fn := range p.funcsIn("") {
+		rt := recvTypeName(fn)
+		if (rt != "RequestHeader" && rt != "ResponseHeader") || fn.Blocks == nil {
+			continue
+		}
+		// natural loops: header -> blocks
+		loops := map[*ssa.BasicBlock]map[*ssa.BasicBlock]bool{}
+		for _, b := range fn.Blocks {
+			for _, s := range b.Succs {
+				if s.Dominates(b) { // back edge b -> s
+					body := loops[s]
+					if body == nil {
+						body = map[*ssa.BasicBlock]bool{s: true}
+						loops[s] = body
+					}
+					work := []*ssa.BasicBlock{b}
+					for len(work) > 0 {
+						x := work[len(work)-1]
+						work = work[:len(work)-1]
+						if body[x] {
+							continue
+						}
+						body[x] = true
+						work = append(work, x.Preds...)
+					}
+				}
+			}
+		}
+		if len(loops) == 0 {
+			continue
+		}
+		for _, b := range fn.Blocks {
+			for _, in := range b.Instrs {
+				c, ok := in.(*ssa.Call)
+				if !ok || c.Call.StaticCallee() != appendLine {
+					continue
+				}
+				var enclosing []*ssa.BasicBlock
+				for h, body := range loops {
+					if body[b] {
+						enclosing = append(enclosing, h)
+					}
+				}
+				if len(enclosing) == 0 {
+					continue
+				}
+				n++
+				ord[fn]++
+				var carried []string
+				for _, g := range guardsOfDepth(b, 0) {
+					var walk func(v ssa.Value, d int, seen map[ssa.Value]bool)
+					walk = func(v ssa.Value, d int, seen map[ssa.Value]bool) {
+						if v == nil || seen[v] || d > 8 {
+							return
+						}
+						seen[v] = true
+						switch w := v.(type) {
+						case *ssa.Phi:
+							if isBool(w.Type()) {
+								for _, h := range enclosing {
+									if w.Block() != h {
+										continue
+									}
+									for i, e := range w.Edges {
+										if loops[h][h.Preds[i]] { // fed from inside the loop
+											_ = e
+											carried = append(carried, fmt.Sprintf("%s (merged at the loop head %s)", w.Comment, p.Pos(firstPos(fn, w.Pos()))))
+										}
+									}
+								}
+							}
+							for _, e := range w.Edges {
+								walk(e, d+1, seen)
+							}
+						case *ssa.UnOp:
+							walk(w.X, d+1, seen)
+						case *ssa.BinOp:
+							walk(w.X, d+1, seen)
+							walk(w.Y, d+1, seen)
+						}
+					}
+					walk(g.Cond, 0, map[ssa.Value]bool{})
+				}
+				sort.Strings(carried)
+				r.Check("R-iter", fmt.Sprintf("%s: whether the field written by in-loop appendHeaderLine call #%d goes out depends on that field alone", funcName(fn), ord[fn]), len(carried) == 0, p.Pos(c.Pos()),
+					"the guard of this appendHeaderLine call flows from a boolean carried across iterations of the loop over the stored fields: "+strings.Join(carried, ", ")+" - once it is raised for one field, the fields after it are left out of the serialised header although Peek/PeekAll still return them")
+			}
+		}
+	}
+	r.Floor("R-iter", "per-field appendHeaderLine calls inside loops of header serialisers", n, 4)
 }
